@@ -85,6 +85,7 @@ def parseEntry (ws : List String) : Entry :=
     uid := clamp0 (optInt (kv ws "uid") 0), gid := clamp0 (optInt (kv ws "gid") 0)
     size := sizeO
     mtime := match kv ws "mtime" with | some "-" => 0 | o => optInt o 0
+    mtimeNs := match kv ws "mtime" with | some "-" => 0 | _ => ((kv ws "mtimens").bind String.toNat?).getD 0
     uname := (optHex (kv ws "uname")).getD [], gname := (optHex (kv ws "gname")).getD []
     sym := (optHex (kv ws "sym")).getD [], hard := (optHex (kv ws "hard")).getD []
     rdevmajor := optInt (kv ws "rdevmajor") 0, rdevminor := optInt (kv ws "rdevminor") 0
@@ -197,6 +198,9 @@ def stepLine (d : DState) (op obs : String) : DState × String :=
         let (fb, st3) := if nofinish then ([], r.2.2) else finishEntry r.2.2
         let d' := { d with ws := st3, out := d.out ++ hb ++ r.2.1 ++ fb }
         (d', s!"h={hs.str} w={r.1}:ok f={if nofinish then "-" else "ok"} len={if d.bpb = 0 then toString d'.out.length else "-"}")
+  | ["done"] =>
+    -- a crashed spec-level case is echoed (the oracle engines report it); for the modelled formats it is a mismatch
+    (d, if d.fmt.isNone && obs.startsWith "!" then obs else "done")
   | ["close"] => doClose d false obs
   | ["abort"] => doClose d true obs
   | ["rd", i] =>
